@@ -237,6 +237,9 @@ type Case struct {
 	// FIRST use of a meter / an instrument happens concurrently on several
 	// goroutines. The SDK hands out the same stream for the same identity.
 	Lazy bool `json:"lazy,omitempty"`
+	// Lend: the configuration arguments are slices of buffers the caller
+	// re-uses for a second (decoy) provider; see lend_test.go.
+	Lend *Lend `json:"lend,omitempty"`
 }
 
 func kvI(k string, v int64) vk.KV   { return vk.KV{K: vk.Str(k), T: "int", I: v} }
@@ -551,6 +554,7 @@ func gen(t *rapid.T) Case {
 	genSumView(t, &c)
 	c.FailCB = rapid.SampledFrom([]int{0, 0, 0, 0, 0, 1, 2, 3}).Draw(t, "failing_callback")
 	c.Lazy = rapid.IntRange(0, 3).Draw(t, "lazy_instruments") == 0
+	genLend(t, &c, 4)
 	return c
 }
 
@@ -581,6 +585,7 @@ func genSeq(t *rapid.T) Case {
 	genSumView(t, &c)
 	c.FailCB = rapid.SampledFrom([]int{0, 0, 0, 0, 1, 2, 3}).Draw(t, "failing_callback")
 	c.Lazy = rapid.IntRange(0, 5).Draw(t, "lazy_instruments") == 0
+	genLend(t, &c, 4)
 	return c
 }
 
@@ -1040,7 +1045,8 @@ var known = map[string]func(Case, vk.Violation) bool{
 		default:
 			return false
 		}
-		m := readerRe.FindStringSubmatch(v.Msg)
+		msg := strings.TrimPrefix(v.Msg, lendNote) // (the note of a lent configuration, see runOnce)
+		m := readerRe.FindStringSubmatch(msg)
 		if m == nil {
 			return false
 		}
@@ -1048,9 +1054,11 @@ var known = map[string]func(Case, vk.Violation) bool{
 		if ri >= len(c.Readers) || c.Readers[ri].Kind != "periodic" {
 			return false
 		}
-		return !strings.HasSuffix(v.Msg, ": a measurement was counted more than once")
+		return !strings.HasSuffix(msg, ": a measurement was counted more than once")
 	},
 }
+
+const lendNote = "(provider configured from option / view buffers that the caller re-used for a second provider after NewMeterProvider returned) "
 
 type collector interface {
 	Collect(context.Context, *metricdata.ResourceMetrics) error
@@ -1283,6 +1291,10 @@ func runOnce(c Case) ([]vk.Violation, map[string]bool) {
 	opts := []sdkmetric.Option{sdkmetric.WithResource(resource.Empty())}
 	colls := make([]collector, len(c.Readers))
 	exps := make([]*recExporter, len(c.Readers))
+	var ld *lender // the configuring caller re-uses its buffers (lend_test.go)
+	if c.Lend != nil {
+		ld = newLender(c)
+	}
 	for ri, rd := range c.Readers {
 		if rd.Kind == "periodic" {
 			exps[ri] = &recExporter{w: w, reader: ri, spec: rd}
@@ -1290,20 +1302,35 @@ func runOnce(c Case) ([]vk.Violation, map[string]bool) {
 			if iv < 500*time.Microsecond {
 				iv = 500 * time.Microsecond
 			}
-			pr := sdkmetric.NewPeriodicReader(exps[ri], sdkmetric.WithInterval(iv))
+			popts := []sdkmetric.PeriodicReaderOption{}
+			if ld != nil {
+				popts = ld.popts[:0]
+			}
+			popts = append(popts, sdkmetric.WithInterval(iv))
+			pr := sdkmetric.NewPeriodicReader(exps[ri], popts...)
+			if ld != nil {
+				ld.scribbleReaderOpts() // NewPeriodicReader has returned
+			}
 			colls[ri] = pr
 			opts = append(opts, sdkmetric.WithReader(pr))
 		} else {
-			mopts := []sdkmetric.ManualReaderOption{sdkmetric.WithTemporalitySelector(selector(rd))}
+			mopts := []sdkmetric.ManualReaderOption{}
+			if ld != nil {
+				mopts = ld.mopts[:0]
+			}
+			mopts = append(mopts, sdkmetric.WithTemporalitySelector(selector(rd)))
 			if rd.DropDefault && c.SumView {
 				mopts = append(mopts, sdkmetric.WithAggregationSelector(func(sdkmetric.InstrumentKind) sdkmetric.Aggregation { return sdkmetric.AggregationDrop{} }))
 			}
 			mr := sdkmetric.NewManualReader(mopts...)
+			if ld != nil {
+				ld.scribbleReaderOpts() // NewManualReader has returned
+			}
 			colls[ri] = mr
 			opts = append(opts, sdkmetric.WithReader(mr))
 		}
 	}
-	if c.SumView {
+	if c.SumView && ld == nil {
 		opts = append(opts, sdkmetric.WithView(sdkmetric.NewView(sdkmetric.Instrument{Name: "*"}, sdkmetric.Stream{Aggregation: sdkmetric.AggregationSum{}})))
 	}
 	if c.Broken != "" {
@@ -1316,7 +1343,12 @@ func runOnce(c Case) ([]vk.Violation, map[string]bool) {
 			opts = append(opts, br)
 		}
 	}
-	mp := sdkmetric.NewMeterProvider(opts...)
+	var mp *sdkmetric.MeterProvider
+	if ld != nil {
+		mp = ld.provider(c, opts, classes)
+	} else {
+		mp = sdkmetric.NewMeterProvider(opts...)
+	}
 	var meters []metric.Meter
 	if !c.Lazy || c.FailCB != 0 { // (lazy: the meters' first use is concurrent too)
 		meters = []metric.Meter{mp.Meter(scopeName(0)), mp.Meter(scopeName(1))}
@@ -2145,6 +2177,11 @@ func runOnce(c Case) ([]vk.Violation, map[string]bool) {
 		}
 		vs[0].Observed = history(c, adds, cons, calls, errs.Errors(), more)
 	}
+	if c.Lend != nil {
+		for i := range vs {
+			vs[i].Msg = lendNote + vs[i].Msg
+		}
+	}
 	return vs, classes
 }
 
@@ -2391,7 +2428,7 @@ func runSeq(c Case) ([]vk.Violation, vk.Info) {
 func TestSequentialModel(t *testing.T) {
 	vk.Run(t, vk.Spec[Case]{
 		Property: "C02", Check: "sequential_model",
-		Rule: "the same instruments / attribute-set pool / readers as sum_conservation, but one goroutine issuing 1-80 Adds (same value dimensions: wide exact values, float64 units 1/8 / 2^-1074 / 2^971, special values +Inf -Inf NaN -0, hot stream), Collects (any reader, reused or fresh ResourceMetrics), ForceFlushes (provider, or directly on a periodic reader; a twelfth of the calls with a cancelled context, a sixteenth repeated 1-200 times in a row), rare sleeps and (a quarter of the cases) 1-2 direct Shutdown calls on a reader in sequence, final Collect, Shutdown, late calls: every bracket collapses to equality with the model at every collection point (interval exports of periodic readers still run beside it); " +
+		Rule: "the same instruments / attribute-set pool / readers as sum_conservation, but one goroutine issuing 1-80 Adds (same value dimensions: wide exact values, float64 units 1/8 / 2^-1074 / 2^971, special values +Inf -Inf NaN -0, hot stream), Collects (any reader, reused or fresh ResourceMetrics), ForceFlushes (provider, or directly on a periodic reader; a twelfth of the calls with a cancelled context, a sixteenth repeated 1-200 times in a row), rare sleeps and (a quarter of the cases) 1-2 direct Shutdown calls on a reader in sequence, final Collect, Shutdown, late calls; in a quarter of the cases the configuring caller lends its memory: the Option list, the WithView argument lists (0-6 views matching nothing plus the optional sum view, in generated groups = WithView options, each a sub-slice of one view buffer with spare capacity or fresh memory) and the reader option lists are slices of buffers that are re-used, once the constructor returned, to configure a second decoy provider whose views drop / rename every instrument (instruments are created afterwards; the oracle is unchanged and applies to the first provider); every bracket collapses to equality with the model at every collection point (interval exports of periodic readers still run beside it); " +
 			"non-trivial = >= 2 Adds and at least one Add between two collection points; distinct = distinct case encodings",
 		Quick: 1500, Thorough: 15000,
 		Gen: genSeq, Run: runSeq, Repeat: 20, Known: known,
@@ -2401,7 +2438,7 @@ func TestSequentialModel(t *testing.T) {
 func TestSumConservation(t *testing.T) {
 	vk.Run(t, vk.Spec[Case]{
 		Property: "C02", Check: "sum_conservation",
-		Rule: "generated concurrent programs: 1-4 instruments (Int64/Float64 Counter/UpDownCounter, two meters; in a quarter of the cases 2-4 instruments of one meter - and optionally 1-2 of the other meter - share ONE name and differ in kind / number type), a pool of 1-6 near-identical attribute sets, 1-5 readers (ManualReader or PeriodicReader with a 1 ms - 5 ms or 1 h interval and a recording exporter that is lenient or follows the Exporter contract (refuses Export after its Shutdown), optionally with scripted Export / ForceFlush / Shutdown errors or recording a measurement inside Export; delta / cumulative / delta-for-counters temporality), 1-4 barrier-separated phases of 1-8 recorder goroutines (0-200 Adds of exact, pairwise distinct values up to 2^60 (int64) / 2^52 units of 1/8, 2^-1074 or 2^971 (float64: subnormal totals, totals beyond MaxFloat64), <= 1000 per program; in half of the programs one in 3-24 float64 Adds records +Inf / -0 / (up-down counters) -Inf / NaN; in a third of the programs half of the Adds go to one hot stream) and 0-3 collector goroutines (Collect on any reader, provider ForceFlush, ForceFlush of a periodic reader itself, a twelfth of them with a cancelled context, a sixteenth of them repeated 1-200 times in a row, sleeps) with generated schedule perturbations, in a quarter of the cases 1-2 direct Shutdown calls on a reader at a generated position, a final Collect on manual readers, Shutdown (optionally racing further Adds) and late calls; each program is executed twice; " +
+		Rule: "generated concurrent programs: 1-4 instruments (Int64/Float64 Counter/UpDownCounter, two meters; in a quarter of the cases 2-4 instruments of one meter - and optionally 1-2 of the other meter - share ONE name and differ in kind / number type), a pool of 1-6 near-identical attribute sets, 1-5 readers (ManualReader or PeriodicReader with a 1 ms - 5 ms or 1 h interval and a recording exporter that is lenient or follows the Exporter contract (refuses Export after its Shutdown), optionally with scripted Export / ForceFlush / Shutdown errors or recording a measurement inside Export; delta / cumulative / delta-for-counters temporality), 1-4 barrier-separated phases of 1-8 recorder goroutines (0-200 Adds of exact, pairwise distinct values up to 2^60 (int64) / 2^52 units of 1/8, 2^-1074 or 2^971 (float64: subnormal totals, totals beyond MaxFloat64), <= 1000 per program; in half of the programs one in 3-24 float64 Adds records +Inf / -0 / (up-down counters) -Inf / NaN; in a third of the programs half of the Adds go to one hot stream) and 0-3 collector goroutines (Collect on any reader, provider ForceFlush, ForceFlush of a periodic reader itself, a twelfth of them with a cancelled context, a sixteenth of them repeated 1-200 times in a row, sleeps) with generated schedule perturbations, in a quarter of the cases 1-2 direct Shutdown calls on a reader at a generated position, a final Collect on manual readers, Shutdown (optionally racing further Adds) and late calls; in a quarter of the cases the configuring caller lends its memory: the Option list, the WithView argument lists (0-6 views matching nothing plus the optional sum view, in generated groups = WithView options, each a sub-slice of one view buffer with spare capacity or fresh memory) and the reader option lists are slices of buffers that are re-used, once the constructor returned, to configure a second decoy provider whose views drop / rename every instrument (instruments are created afterwards; the oracle is unchanged and applies to the first provider); each program is executed twice; " +
 			"non-trivial = >= 1 collection (Collect / ForceFlush by logical-clock overlap, or an export whose collection window contains an Add) ran concurrently with >= 1 Add and >= 2 collections happened; distinct = distinct case encodings",
 		Quick: 300, Thorough: 3000,
 		Gen: gen, Run: run, Repeat: 100, Known: known,
